@@ -20,8 +20,27 @@ WS_KINDS = [' ', '\n', '\r\n', '\t ', '  \n  ', '\r', ' \x0b\x0c ', '  ']
 PERSON_FIELDS = ('author', 'editor')
 
 
+# the 29 white-space code points (str.isspace / regex \s of the interpreter; the Lean table `wsCodes`); CRLF is CR LF
+WS29 = [chr(c) for c in (9, 10, 11, 12, 13, 28, 29, 30, 31, 32, 133, 160, 5760, 8192, 8193, 8194, 8195, 8196, 8197, 8198, 8199, 8200,
+                         8201, 8202, 8232, 8233, 8239, 8287, 12288)]
+_WS29 = frozenset(WS29)
+
+
 def normalize_ws(s):
-    return re.sub(r'\s+', ' ', s.strip())
+    """Every maximal run of white space becomes one blank, leading and trailing white space is dropped -- written out by
+    hand over the explicit table (no `re`, no `str.strip`: those are what the implementation uses)."""
+    words = []
+    cur = []
+    for c in s:
+        if c in _WS29:
+            if cur:
+                words.append(''.join(cur))
+                cur = []
+        else:
+            cur.append(c)
+    if cur:
+        words.append(''.join(cur))
+    return ' '.join(words)
 
 
 def balanced(s):
@@ -120,6 +139,8 @@ def render(doc, L, fixed=None):
             out.append(cmd['text'])
             continue
         paren = fixed['paren'] if fixed.get('paren') is not None else bool(L.pick(2))
+        if k == 'entry' and '}' in cmd['key']:
+            paren = True      # KEY_BRACE stops at '}': such a key needs the parenthesis delimiters
         o, c = ('(', ')') if paren else ('{', '}')
         if k == 'comment':
             out.append('@' + case('comment') + ws() + o + cmd['text'] + c + ws())
@@ -133,7 +154,7 @@ def render(doc, L, fixed=None):
             continue
         # entry
         wtype = case(cmd['type'])
-        s = '@' + ws() + wtype + ws() + o + ws() + cmd['key'] + ws() + ','
+        s = '@' + ws() + wtype + ws() + o + ws() + cmd['key']
         fs = []
         wfields = []
         for name, pieces in cmd['fields']:
@@ -141,10 +162,17 @@ def render(doc, L, fixed=None):
             wfields.append([wname, pieces])
             fs.append(ws() + wname + ws() + '=' + ws() + render_value(pieces, L, fixed, ws) + ws())
         written.append({'k': 'entry', 'type': wtype, 'key': cmd['key'], 'fields': wfields})
-        s += ','.join(fs)
         trailing = fixed['trailing'] if fixed.get('trailing') is not None else bool(L.pick(2))
-        if trailing and fs:
-            s += ',' + ws()
+        if fs:
+            s += ws() + ',' + ','.join(fs)
+            if trailing:
+                s += ',' + ws()
+        elif trailing or not fixed.get('bare_ok', True):
+            s += ws() + ',' + ws()      # field-less entry written "@a{k,}"
+        else:
+            # field-less entry written "@a{k}"; in parentheses the key pattern [^\s,]+ would swallow the ")": white space needed
+            w = ws()
+            s += (w or ' ') if paren else w
         s += c + ws()
         out.append(s)
     if fixed.get('_want_written'):
@@ -216,7 +244,29 @@ KEYS = ['key1', 'Knuth:1984', 'a-b', 'K', 'x/y', 'weird{key', 'k)', 'KEY2', 'k"q
 MACRO_NAMES = ['jv', 'STOC', 'a-macro', 'x.y']
 
 
-def gen_value(rng, macros_defined):
+# richer pools (C01 / C10 only; `gen_doc(..., rich=True)`): every NAME_CHARS symbol and digits in identifiers, numbers with leading
+# zeros, every white-space code point inside values (start / interior / end), upper-case separators in name lists, month names as
+# @string names, non-ASCII keys
+NAME_SYMBOLS = '@!$&*+-./:;<>?[\\]^_`|~\x7f'
+RICH_TYPES = TYPES + ['url2', 'stoc89', 'X9y', 'a@b', '$t', 't!', 'in&out', 'a*', 'p+', 'q/r', 'c:d', 's;t', '<x>', 'w?', '[y]', 'b\\s', 'h^i',
+                      'u_v', 'g`', 'm|n', 'til~de', 'd\x7fl', '@at', 'A1b2C3']
+RICH_FIELD_NAMES = FIELD_NAMES + ['url2', 'stoc89', 'f0', 'note9x', 'a@b', '$x', 'x!', 'r&d', 'st*r', 'c+', 'u/v', 'ns:tag', 'se;mi', '<lt', 'gt>',
+                                  'q?', '[br', 'kt]', 'bk\\sl', 'ca^ret', 'un_der', 'ba`ck', 'pi|pe', 'ti~lde', 'de\x7fl', '@f']
+RICH_MACRO_NAMES = MACRO_NAMES + ['stoc89', 'url2', 'm0', 'x@y', 'a!', '$', 'p+q', 'n:s', '<m>', 'q?', '[i]', 'b\\s', 'c^', 'u_', 'g`', 'p|', 't~',
+                                  'jan', 'DEC', 'May', 'sEp']
+RICH_KEYS = KEYS + ['0start', '9', 'url2', 'stoc89', '\xc4rger', '\u043a\u043b\u044e\u0447', '\xe91', '\u674e', 'na\xefve-key', '\xdf1',
+                    'k\u20131', 'a@b', '\U0001f600k', 'K(1', 'k{x']
+RICH_LITS = LITS + ['0012', '0', '007', '000', '1' + '0' * 30, 'a {b {c} d} e', '{{{deep}}}', 'x\r\ny', 'x\ry', '\rlead', 'trail\r\n']
+for _w in WS29 + ['\r\n']:
+    RICH_LITS.append(_w + 'a' + _w + _w + 'b' + _w)
+    RICH_LITS.append('x' + _w + 'y')
+RICH_PEOPLE = NAMES_PEOPLE + ['A. Bee AND C. Dee', 'Knuth, D. And Lamport, L. aNd others', 'Xandy and Andy AnD Band', 'A anD {B and C} AND D',
+                              'de la Vall{\\\'e}e Poussin, Charles', 'One, A\u00a0and Two, B', 'Jean\tde La Fontaine\x0band\x0cX Y',
+                              'Ford, Jr., Henry and {and}', 'van der Waals~J. D.']
+NAME_MACROS = [('pknuth', 'Knuth, Donald E.'), ('PLamport', 'Leslie Lamport'), ('p-both', 'A. One AND B. Two'), ('others', 'others')]
+
+
+def gen_value(rng, macros_defined, lits=LITS):
     n = rng.choice([1, 1, 1, 2, 3])
     pieces = []
     for _ in range(n):
@@ -226,42 +276,70 @@ def gen_value(rng, macros_defined):
         elif r < 0.35:
             pieces.append({'macro': rng.choice(sorted(MONTHS))})
         else:
-            pieces.append({'lit': rng.choice(LITS)})
+            pieces.append({'lit': rng.choice(lits)})
     return pieces
 
 
-def gen_doc(rng, max_cmds=5, dups=False):
+def gen_person_value(rng, name_macros):
+    """A person field: one literal, or names joined by '#': macro # " and " # macro ... (the separator in any letter case)."""
+    if not name_macros or rng.random() < 0.5:
+        return [{'lit': rng.choice(RICH_PEOPLE)}]
+    pieces = []
+    for i in range(rng.randint(1, 3)):
+        if i:
+            pieces.append({'lit': rng.choice([' and ', ' AND ', ' And ', '\nand\t', ' and', ' aND '])})
+            if pieces[-1]['lit'] == ' and':
+                pieces.append({'lit': ' '})
+        if rng.random() < 0.7:
+            pieces.append({'macro': rng.choice(sorted(name_macros))})
+        else:
+            pieces.append({'lit': rng.choice(['Solo', 'von Last, First', '{Braced Name}'])})
+    return pieces
+
+
+def gen_doc(rng, max_cmds=5, dups=False, rich=False, fold_unicode_keys=True):
+    """rich=False: the pools of round 1 (C02 / C17 feed the documents to writers and 8-bit codecs).
+    fold_unicode_keys: with dups, repeat non-ASCII keys in another letter case too (str.lower() folds them)."""
+    types, field_names, macro_names, keys, lits = (
+        (RICH_TYPES, RICH_FIELD_NAMES, RICH_MACRO_NAMES, RICH_KEYS, RICH_LITS) if rich else (TYPES, FIELD_NAMES, MACRO_NAMES, KEYS, LITS))
     doc = []
     defined = set()
+    name_macros = set()
     used_keys = set()
+    if rich and rng.random() < 0.3:
+        for n, v in rng.sample(NAME_MACROS, rng.randint(1, 3)):
+            doc.append({'k': 'string', 'name': n, 'value': [{'lit': v}]})
+            name_macros.add(n)
     for _ in range(rng.randint(1, max_cmds)):
         r = rng.random()
         if r < 0.15:
-            name = rng.choice(MACRO_NAMES)
-            doc.append({'k': 'string', 'name': name, 'value': gen_value(rng, defined)})
+            name = rng.choice(macro_names)
+            doc.append({'k': 'string', 'name': name, 'value': gen_value(rng, defined, lits)})
             defined.add(name)
         elif r < 0.25:
-            doc.append({'k': 'preamble', 'value': gen_value(rng, defined)})
+            doc.append({'k': 'preamble', 'value': gen_value(rng, defined, lits)})
         elif r < 0.32:
             doc.append({'k': 'comment', 'text': rng.choice(['', 'just text', 'a = {b}', 'x, y'])})
         elif r < 0.42:
             doc.append({'k': 'junk', 'text': rng.choice(['free text\n', '% a comment line\n', 'junk { } = , " #\n', '\n\n'])})
         else:
-            key = rng.choice([k for k in KEYS if k.lower() not in used_keys] or ['zz%d' % len(used_keys)])
+            key = rng.choice([k for k in keys if k.lower() not in used_keys] or ['zz%d' % len(used_keys)])
             used_keys.add(key.lower())
-            names = rng.sample(FIELD_NAMES, rng.randint(0, 4))
-            fields = [[n, gen_value(rng, defined)] for n in names]
+            names = rng.sample(field_names, rng.randint(0, 4))
+            fields = [[n, gen_value(rng, defined, lits)] for n in names]
             if rng.random() < 0.4:
                 role = rng.choice(['author', 'Editor', 'AUTHOR'])
-                fields.insert(rng.randint(0, len(fields)), [role, [{'lit': rng.choice(NAMES_PEOPLE)}]])
+                pv = gen_person_value(rng, name_macros) if rich else [{'lit': rng.choice(NAMES_PEOPLE)}]
+                fields.insert(rng.randint(0, len(fields)), [role, pv])
             if dups and fields and rng.random() < 0.5:
                 # name a field twice (the layout spells the two occurrences in independent letter cases)
                 n, _v = rng.choice(fields)
-                fields.insert(rng.randint(0, len(fields)), [n, gen_value(rng, defined)])
-            doc.append({'k': 'entry', 'type': rng.choice(TYPES), 'key': key, 'fields': fields})
+                fields.insert(rng.randint(0, len(fields)), [n, gen_value(rng, defined, lits)])
+            doc.append({'k': 'entry', 'type': rng.choice(types), 'key': key, 'fields': fields})
             if dups and rng.random() < 0.2:
-                doc.append({'k': 'entry', 'type': rng.choice(TYPES), 'key': rng.choice([key, key.upper(), key.lower(), key.swapcase()]),
-                            'fields': [[rng.choice(FIELD_NAMES), gen_value(rng, defined)]]})
+                variants = [key, key.upper(), key.lower(), key.swapcase()] if (key.isascii() or fold_unicode_keys) else [key]
+                doc.append({'k': 'entry', 'type': rng.choice(types), 'key': rng.choice(variants),
+                            'fields': [[rng.choice(field_names), gen_value(rng, defined, lits)]]})
     return doc
 
 
